@@ -47,6 +47,14 @@ class C12(Check):
 
     def generate(self, rng, n, tier):
         out = []
+        if tier == "thorough":
+            # bounded-exhaustive: every guarantee list of one or two rows over (i input, o output) with coefficients and constants in
+            # {-1, 0, 1}, each coordinate objective in both directions (bounded, unbounded, infeasible, degenerate)
+            for l in G.grid_lists(G.grid_rows(vs=("i", "o")), 2):
+                for v in ("i", "o"):
+                    for mx in (True, False):
+                        out.append({"kind": "opt", "c": {"ins": ["i"], "outs": ["o"], "a": [], "g": [dict(c=dict(t["c"]), k=t["k"]) for t in l]},
+                                    "obj": {v: 1.0}, "max": mx, "tag": "grid"})
         for _ in range(n):
             vs = ["i", "j", "o", "p", "q"][: rng.randint(1, 5)]
             ins = vs[: max(1, len(vs) // 2)]
